@@ -49,6 +49,14 @@ CHECKS = {
             "of its sub-queries run alone on the same searcher; scores must not depend on limit or filter.",
             "Field-length byte approximation treated as specification; tolerances 1e-9 (composition) and 2e-6 (reference scorer, float32 term statistics); DisjunctionMax tiebreak != 0 excluded (parameter unused by whoosh).",
             "DESIGN.md section 2 C09"),
+    "C10": ("exploration",
+            "property-based testing (Hypothesis): generated token streams through a harness tokenizer, read-back compared with a model of the posting format",
+            "Generated token streams (unicode terms up to 300 chars, position gaps, character offsets, per-token boosts), all six posting formats for postings and vectors, "
+            "field/document boosts, posting-list lengths set around block multiples, deletions, two scorable fields per document, and codecs W3Codec(block limit 1-9|128, "
+            "compression 0/3/9, inline limit 1-3), the in-memory codec (BufferedWriter.reader()) and PlainTextCodec. Every posting list, every decoded value kind, term_info "
+            "statistics, per-document field lengths and every term vector must equal what the format model derives from the token streams.",
+            "Statistics are compared against the as-written list (deletions not reflected until optimize - documented). PlainTextCodec is fed alphanumeric terms only (recorded finding C10-plaintext-term-charset).",
+            "DESIGN.md section 2 C10"),
     "C11": ("exploration",
             "model-based property testing (Hypothesis): generated cursor programs on generated matcher trees vs the entry list of a pristine next()-stepped copy",
             "Matcher trees are obtained from generated queries over generated multi-block, multi-segment corpora (scored / boolean / needs_current contexts, per segment and "
